@@ -18,6 +18,8 @@ LEVEL = "exploration"
 WATCHDOG_S = 30.0
 HANG_IS_VIOLATION = True  # a store that never returns (e.g. a lock that is not released between chunks) has not written the array
 NMAX1 = {"quick": 5, "thorough": 6}
+N2MAX = {"quick": 3, "thorough": 4}
+S2PARTS = {"quick": 2, "thorough": 6}
 FILL = -1
 ASSUMPTIONS = [
     "targets are NumPy arrays pre-filled with -1 (sources hold distinct positive integers), so both a missing write and a write outside the region are visible",
@@ -37,9 +39,9 @@ def RULE(tier):
         f"store, one source: shapes (n,) n<=" + str(NMAX1[tier]) + ", (), (2,2), (2,3), (3,2)" + (", (3,4), (2,2,2)" if tier == "thorough" else "") + " x EVERY chunking x "
         "regions {None; every offset 0..2 per axis inside a target 2 larger; step-2 regions; negative-start / negative-step regions (refusal expected)} x "
         "lock in {True, False, threading.Lock, SerializableLock} x {compute, compute=False then compute, return_stored, return_stored+compute=False} x "
-        "{sync, real threads, newest-first controlled executor}; Delayed targets. store, two sources in one call: all chunkings of lengths 1..3 x "
+        "{sync, real threads, newest-first controlled executor}; Delayed targets. store, two sources in one call: all chunkings of lengths 1.." + str(N2MAX[tier]) + " x "
         "{two targets, two targets with regions, one shared target with separated / abutting regions, one region tuple for both} x lock x mode x "
-        "{sync + FIFO and newest-first completion; for lock=True every completion order with <= 1 deviation}. Oracle: target == -1-filled reference with reference[region] = source "
+        "{sync + FIFO and newest-first completion + every completion order with <= 1 deviation" + ("" if tier == "thorough" else " (quick: only for lock=True)") + "}. Oracle: target == -1-filled reference with reference[region] = source "
         "(cells outside the region untouched), nothing written before the deferred compute, returned arrays equal the source with the source's chunks. "
         "to_npy_stack/from_npy_stack: every chunking x every axis x mmap_mode x dtype: values, dtype and the chunks along the stacking axis are reproduced. "
         "non-trivial = some source has >= 2 chunks."
@@ -89,9 +91,9 @@ def shards(tier):
         nparts = 8 if int(np.prod(shp)) >= 5 else (2 if int(np.prod(shp)) >= 3 else 1)
         for part in range(nparts):
             out.append(("s1", shp, part, nparts))
-    for n1 in (1, 2, 3):
-        for n2 in (1, 2, 3):
-            for part in range(2):
+    for n1 in range(1, N2MAX[tier] + 1):
+        for n2 in range(1, N2MAX[tier] + 1):
+            for part in range(S2PARTS[tier]):
                 out.append(("s2", n1, n2, part))
     for shp in [(n,) for n in range(0, NMAX1[tier] + 2)] + [(2, 2), (2, 3), (3, 2), (2, 2, 2)] + ([(3, 4), (2, 3, 2)] if tier == "thorough" else []):
         out.append(("npy", shp))
@@ -129,7 +131,7 @@ def cases_of(shard, tier):
                     for lock in LOCKS:
                         for mode in MODES:
                             i += 1
-                            if i % 2 == part:
+                            if i % S2PARTS[tier] == part:
                                 yield ("s2", n1, ch1, n2, ch2, layout, lock, mode)
     elif kind == "npy":
         shp = shard[1]
@@ -292,7 +294,7 @@ def run_store(case, ctx):
         nontrivial = len(ch1) >= 2 or len(ch2) >= 2
         # the lock kind cannot interact with the completion order on the (serial) controlled executor: full order exploration for the
         # default lock=True, the two extreme orders for the other lock kinds
-        orders = ["sync", "explore"] if lock is True else ["sync", "ends"]
+        orders = ["sync", "explore"] if (lock is True or ctx.tier == "thorough") else ["sync", "ends"]
         op = "store2"
 
     outcome = []
